@@ -166,6 +166,14 @@ def c_resample_circuit(ctx, args):
         outs = []
         for h in hist:
             s = pc.zero_state(N)
+            if h == 'C':
+                # somebody tries to compile the random circuit: that is refused (a random gate has no map to compile) -- and must leave the circuit as it was
+                try:
+                    c.compile()
+                    return {'kind': 'oracle', 'where': 'np:%s: compile() of a circuit with unspecified gates did not refuse' % kind, 'observed': 'no exception', 'expected': 'an exception', 'tags': ['resample_circuit']}
+                except Exception:
+                    pass
+                continue
             if h == 'F':
                 c.forward(s)
             elif h == 'B':
@@ -184,7 +192,7 @@ def c_resample_circuit(ctx, args):
         return {'kind': 'oracle', 'where': 'np:%s: unspecified gates are not resampled at every call (history %s)' % (kind, hist), 'observed': len(calls), 'expected': expected, 'tags': ['resample_circuit']}
     if any(g.forward_map is not None or g.backward_map is not None or g.generator is not None for g in gates):
         return {'kind': 'oracle', 'where': 'np:%s: an unspecified gate stored a map after history %s' % (kind, hist), 'observed': 'map stored', 'expected': 'nothing stored', 'tags': ['resample_circuit']}
-    if len(hist) >= 5 and N >= 2 and len(set(outs)) < 2:
+    if len(outs) >= 5 and N >= 2 and len(set(outs)) < 2:
         return {'kind': 'oracle', 'where': 'np:%s: %d runs gave one and the same state' % (kind, len(hist)), 'observed': outs[0], 'expected': 'varying states', 'tags': ['resample_circuit']}
     return None
 
@@ -326,7 +334,7 @@ def run(ctx):
         Np = rng.randint(1, 4)
         do(ctx, 'povm_samples', [['CliffordCircuit', 'Circuit'][it % 2], Np, [[0, gen.rgate(rng, ctx.model, Np, kinds=('gen', 'fwd', 'named'))] for _ in range(rng.randint(1, 5))], rng.randint(2, 4), it % 3 == 0], nontrivial=('pv', it))
         kind = ['CliffordCircuit', 'Circuit', 'brickwall', 'onsite', 'global'][it % 5]
-        do(ctx, 'resample_circuit', [kind, 2 * rng.randint(1, 2), rng.randrange(10 ** 6), ''.join(rng.choice('FBP') for _ in range(rng.randint(2, 6)))], nontrivial=('rc', it))
+        do(ctx, 'resample_circuit', [kind, 2 * rng.randint(1, 2), rng.randrange(10 ** 6), ''.join(rng.choice('FBPC' if it % 2 else 'FBP') for _ in range(rng.randint(3, 7)))], nontrivial=('rc', it))
     if not getattr(ctx, 'is_worker', False):
         do(ctx, 'chi2', [1, 3000 if ctx.tier == 'quick' else 60000, 11], nontrivial='chi1')
     if not getattr(ctx, 'is_worker', False):
